@@ -29,7 +29,7 @@ func init() {
 		Run: func(w *mc.W, u int) {
 			unit := genUnits(w.Tier)[u]
 			st := &c11State{}
-			var hist byteHist
+			hist := &byteHistory
 			unit.Each(func(b []byte) bool {
 				hist.begin(w, b, unit.Name)
 				c11Check(w, st, b, unit.Name)
